@@ -1042,7 +1042,7 @@ func genC12(d *Draw) Case {
 	if d.N(5) == 4 {
 		return genC12Ends(d)
 	}
-	opts := ProgOpts{Kinds: []string{"seq", "xor", "and", "or", "loop", "condtask"}, MaxDepth: 1 + d.N(2), MaxTasks: 3 + d.N(5), OrEarlyEnd: false, Wrap: true} // blocks must be single-entry single-exit for the inlined twin to be equivalent
+	opts := ProgOpts{Kinds: []string{"seq", "xor", "and", "or", "loop", "condtask"}, MaxDepth: 1 + d.N(2), MaxTasks: 3 + d.N(5), OrEarlyEnd: false, Wrap: true, Throws: true} // blocks must be single-entry single-exit for the inlined twin to be equivalent
 	var kinds []string
 	for _, k := range opts.Kinds {
 		if d.N(3) != 0 {
